@@ -62,8 +62,6 @@ const (
 	thrCache    = float32(0.1)
 	thrRAG      = float32(0.97) // similarity 1/(1+d) a chunk needs to be attached: d < 0.0309
 	cacheTTL    = time.Hour
-	fwIndex     = "prompt_guard"
-	cacheIndex  = "semantic_cache"
 	ragIndex    = "knowledge_base"
 )
 
@@ -384,7 +382,7 @@ func serveRewriter(w http.ResponseWriter, r *http.Request) {
 type World struct {
 	P                             Profile
 	Cfg                           Cfg
-	dir                           string
+	fwName, cacheName             string
 	E                             *engine.Engine
 	GW                            *proxy.AIProxy
 	primer                        *proxy.AIProxy
@@ -415,10 +413,10 @@ func gatewayConfig(w *World, fw, cache, rag bool, target string) proxy.Config {
 	c.Embedder = w.emb
 	c.FirewallEnabled = fw
 	c.FirewallDenyList = denyList
-	c.FirewallIndex = fwIndex
+	c.FirewallIndex = w.fwName
 	c.FirewallThreshold = thrFirewall
 	c.CacheEnabled = cache
-	c.CacheIndex = cacheIndex
+	c.CacheIndex = w.cacheName
 	c.CacheThreshold = thrCache
 	c.CacheTTL = cacheTTL
 	c.MaxCacheItems = 10000
@@ -438,15 +436,90 @@ func gatewayConfig(w *World, fw, cache, rag bool, target string) proxy.Config {
 	return c
 }
 
+// One engine per process: the knowledge base and the forbidden-prompt indexes are read-only and
+// shared by all histories of the process; every world gets a cache index of its own (an index costs
+// a 64 MB arena file, an engine a directory and a log -- far more than replaying a history).
+var host struct {
+	once   sync.Once
+	err    error
+	dir    string
+	E      *engine.Engine
+	mu     sync.Mutex
+	fw     map[string]string // forbidden set -> index name
+	seq    int
+	closed bool
+}
+
+func hostEngine(p Profile) (*engine.Engine, error) {
+	host.once.Do(func() {
+		host.fw = map[string]string{}
+		host.dir, host.err = os.MkdirTemp("", "vgateway-")
+		if host.err != nil {
+			return
+		}
+		host.E, host.err = engine.Open(engineOptions(host.dir))
+		if host.err != nil {
+			return
+		}
+		m := metricOf(p.Metric)
+		if host.err = host.E.VCreate(ragIndex, m, 16, 200, distance.Float32, "", nil, nil, nil); host.err != nil {
+			return
+		}
+		for _, d := range allDocs {
+			if host.err = host.E.VAdd(ragIndex, docID(p.IDStyle, d), vecOf(p.Metric, d), map[string]any{"content": "chunk " + d + " says something useful"}); host.err != nil {
+				return
+			}
+		}
+	})
+	return host.E, host.err
+}
+
+func hostClose() {
+	if host.E != nil {
+		host.E.Close()
+		os.RemoveAll(host.dir)
+	}
+}
+
+// the index of forbidden prompts for a configuration, stored by the operator
+func firewallIndexFor(p Profile, forb []string) (string, error) {
+	host.mu.Lock()
+	defer host.mu.Unlock()
+	key := strings.Join(forb, ",")
+	if name, ok := host.fw[key]; ok {
+		return name, nil
+	}
+	name := "prompt_guard"
+	if key != "" {
+		name += "_" + strings.ToLower(strings.ReplaceAll(key, ",", "_"))
+	}
+	if len(forb) == 0 && p.FwEmpty == "missing" {
+		host.fw[key] = name + "_missing" // never created
+		return host.fw[key], nil
+	}
+	if err := host.E.VCreate(name, metricOf(p.Metric), 16, 200, distance.Float32, "", nil, nil, nil); err != nil {
+		return "", fmt.Errorf("create firewall index: %w", err)
+	}
+	for _, f := range forb {
+		if err := host.E.VAdd(name, "ban_"+f, vecOf(p.Metric, f), map[string]any{"text": phrase[f]}); err != nil {
+			return "", fmt.Errorf("store forbidden prompt: %w", err)
+		}
+	}
+	host.fw[key] = name
+	return name, nil
+}
+
 func newWorld(p Profile, cfg Cfg) (*World, error) {
-	dir, err := os.MkdirTemp("", "vgateway-")
+	e, err := hostEngine(p)
 	if err != nil {
 		return nil, err
 	}
-	w := &World{P: p, Cfg: cfg, dir: dir, born: map[string]int{}}
-	w.E, err = engine.Open(engineOptions(dir))
-	if err != nil {
-		os.RemoveAll(dir)
+	w := &World{P: p, Cfg: cfg, E: e, born: map[string]int{}}
+	host.mu.Lock()
+	host.seq++
+	w.cacheName = fmt.Sprintf("semantic_cache_%d", host.seq)
+	host.mu.Unlock()
+	if w.fwName, err = firewallIndexFor(p, cfg.Forb); err != nil {
 		return nil, err
 	}
 	w.emb = &stubEmbedder{metric: p.Metric}
@@ -457,33 +530,8 @@ func newWorld(p Profile, cfg Cfg) (*World, error) {
 	k2, w.primerURL = stubURL("primer", w.primerUp.serve)
 	k3, w.rewriterURL = stubURL("llm", serveRewriter)
 	w.routes = []string{k1, k2, k3}
-	m := metricOf(p.Metric)
-	// forbidden prompts, stored by the operator
-	if len(cfg.Forb) > 0 || p.FwEmpty == "empty" {
-		if err := w.E.VCreate(fwIndex, m, 16, 200, distance.Float32, "", nil, nil, nil); err != nil {
-			w.Close()
-			return nil, fmt.Errorf("create firewall index: %w", err)
-		}
-		for _, f := range cfg.Forb {
-			if err := w.E.VAdd(fwIndex, "ban_"+f, vecOf(p.Metric, f), map[string]any{"text": phrase[f]}); err != nil {
-				w.Close()
-				return nil, fmt.Errorf("store forbidden prompt: %w", err)
-			}
-		}
-	}
-	// knowledge base
-	if err := w.E.VCreate(ragIndex, m, 16, 200, distance.Float32, "", nil, nil, nil); err != nil {
-		w.Close()
-		return nil, fmt.Errorf("create knowledge base: %w", err)
-	}
-	for _, d := range allDocs {
-		if err := w.E.VAdd(ragIndex, docID(p.IDStyle, d), vecOf(p.Metric, d), map[string]any{"content": "chunk " + d + " says something useful"}); err != nil {
-			w.Close()
-			return nil, fmt.Errorf("store chunk: %w", err)
-		}
-	}
 	if p.CacheIndex == "pre" {
-		if err := w.E.VCreate(cacheIndex, m, 16, 200, distance.Float32, "english", nil, nil, nil); err != nil {
+		if err := w.E.VCreate(w.cacheName, metricOf(p.Metric), 16, 200, distance.Float32, "english", nil, nil, nil); err != nil {
 			w.Close()
 			return nil, fmt.Errorf("create cache index: %w", err)
 		}
@@ -496,20 +544,22 @@ func newWorld(p Profile, cfg Cfg) (*World, error) {
 	return w, nil
 }
 
-// engines are closed and their directories removed in the background (it costs more than a history)
+// a world's cache index is dropped in the background when the world is done (names are never reused)
 var closers sync.WaitGroup
 
 func (w *World) Close() {
 	stubRelease(w.routes...)
-	e, dir := w.E, w.dir
+	e, name := w.E, w.cacheName
 	w.E = nil
+	if e == nil {
+		return
+	}
 	closers.Add(1)
 	go func() {
 		defer closers.Done()
-		if e != nil {
-			e.Close()
+		if _, ok := e.DB.GetVectorIndex(name); ok {
+			_ = e.VDeleteIndex(name)
 		}
-		os.RemoveAll(dir)
 	}()
 }
 
@@ -530,12 +580,12 @@ func (e RealEntry) key() string {
 }
 
 func (w *World) cacheExists() bool {
-	_, ok := w.E.DB.GetVectorIndex(cacheIndex)
+	_, ok := w.E.DB.GetVectorIndex(w.cacheName)
 	return ok
 }
 
 func (w *World) cacheLanguage() string {
-	idx, ok := w.E.DB.GetVectorIndex(cacheIndex)
+	idx, ok := w.E.DB.GetVectorIndex(w.cacheName)
 	if !ok {
 		return "(no index)"
 	}
@@ -545,14 +595,30 @@ func (w *World) cacheLanguage() string {
 	return "?"
 }
 
+const primerQuery = "primer request without any known phrase"
+
+// ids of the entries the property talks about (the harness' own primer entry is not one of them)
 func (w *World) cacheIDs() []string {
+	var out []string
+	for _, id := range w.rawCacheIDs() {
+		if d, err := w.E.VGet(w.cacheName, id); err == nil {
+			if q, _ := d.Metadata["query"].(string); strings.HasPrefix(q, primerQuery) {
+				continue
+			}
+		}
+		out = append(out, id)
+	}
+	return out
+}
+
+func (w *World) rawCacheIDs() []string {
 	if !w.cacheExists() {
 		return nil
 	}
 	var ids []string
 	cursor := uint32(0)
 	for i := 0; i < 1000; i++ {
-		part, next, err := w.E.VGetIDsByCursor(cacheIndex, cursor, 500)
+		part, next, err := w.E.VGetIDsByCursor(w.cacheName, cursor, 500)
 		if err != nil {
 			break
 		}
@@ -586,11 +652,11 @@ func (w *World) observeCache() []RealEntry {
 	var out []RealEntry
 	now := float64(time.Now().Unix())
 	for _, id := range w.cacheIDs() {
-		d, err := w.E.VGet(cacheIndex, id)
+		d, err := w.E.VGet(w.cacheName, id)
 		// VAdd publishes the node before its metadata: an entry seen without a response is still being written
 		for try := 0; err == nil && d.Metadata["response"] == nil && try < 400; try++ {
 			time.Sleep(250 * time.Microsecond)
-			d, err = w.E.VGet(cacheIndex, id)
+			d, err = w.E.VGet(w.cacheName, id)
 		}
 		if err != nil {
 			continue
@@ -629,24 +695,23 @@ func (w *World) ensureCacheIndex() error {
 			return err
 		}
 	}
-	body := `{"model":"stub-model","prompt":"primer request without any known phrase","stream":false}`
+	body := `{"model":"stub-model","prompt":"` + primerQuery + `","stream":false}`
 	rec := httptest.NewRecorder()
 	w.primer.ServeHTTP(rec, httptest.NewRequest("POST", "http://gateway.local/api/generate", strings.NewReader(body)))
+	// The throw-away entry stays in the index, far from every position and long expired (removing the
+	// only node of an index would leave the index without a usable entry point); observeCache hides it.
 	deadline := time.Now().Add(time.Duration(w.P.SaveWaitMs) * time.Millisecond)
 	for time.Now().Before(deadline) {
-		removed := false
-		for _, id := range w.cacheIDs() {
-			d, err := w.E.VGet(cacheIndex, id)
+		for _, id := range w.rawCacheIDs() {
+			d, err := w.E.VGet(w.cacheName, id)
 			if err != nil {
 				continue
 			}
-			if q, _ := d.Metadata["query"].(string); strings.HasPrefix(q, "primer request") {
-				_ = w.E.VDelete(cacheIndex, id)
-				removed = true
+			if q, _ := d.Metadata["query"].(string); strings.HasPrefix(q, primerQuery) {
+				if c, ok := d.Metadata["created_at"].(float64); ok {
+					return w.E.VSetMetadata(w.cacheName, id, map[string]any{"created_at": c - 1000*cacheTTL.Seconds()})
+				}
 			}
-		}
-		if removed {
-			return nil
 		}
 		time.Sleep(time.Millisecond)
 	}
@@ -655,7 +720,7 @@ func (w *World) ensureCacheIndex() error {
 	}
 	// the gateway did not create it: fall back to an operator-created index of the documented shape
 	w.notes = append(w.notes, "primer: gateway did not create the cache index; created by the harness (cosine, no text language)")
-	return w.E.VCreate(cacheIndex, distance.Cosine, 16, 200, distance.Float32, "", nil, nil, nil)
+	return w.E.VCreate(w.cacheName, distance.Cosine, 16, 200, distance.Float32, "", nil, nil, nil)
 }
 
 // plantEntry stores an entry with the schema of saveToCache (query, response, created_at, sources)
@@ -681,7 +746,7 @@ func (w *World) plantEntry(tagPrefix string, born int, pos string, src []string,
 		"created_at": created,
 		"sources":    strings.Join(ids, " "),
 	}
-	return w.E.VAdd(cacheIndex, fmt.Sprintf("cache_%d_%d", time.Now().UnixNano(), w.seedN), w.cacheVec(pos), meta)
+	return w.E.VAdd(w.cacheName, fmt.Sprintf("cache_%d_%d", time.Now().UnixNano(), w.seedN), w.cacheVec(pos), meta)
 }
 
 func (w *World) cacheVec(pos string) []float32 { return vecOf(w.P.Metric, pos) }
@@ -689,22 +754,16 @@ func (w *World) cacheVec(pos string) []float32 { return vecOf(w.P.Metric, pos) }
 // advance the clock past the TTL: every stored answer becomes two TTLs older
 func (w *World) tick() error {
 	for _, id := range w.cacheIDs() {
-		d, err := w.E.VGet(cacheIndex, id)
+		d, err := w.E.VGet(w.cacheName, id)
 		if err != nil {
 			continue
 		}
 		c, _ := d.Metadata["created_at"].(float64)
-		if err := w.E.VSetMetadata(cacheIndex, id, map[string]any{"created_at": c - 2*cacheTTL.Seconds()}); err != nil {
+		if err := w.E.VSetMetadata(w.cacheName, id, map[string]any{"created_at": c - 2*cacheTTL.Seconds()}); err != nil {
 			return err
 		}
 	}
 	return nil
-}
-
-func (w *World) wipeCache() {
-	for _, id := range w.cacheIDs() {
-		_ = w.E.VDelete(cacheIndex, id)
-	}
 }
 
 func analyzerTokens(s string) []string { return textanalyzer.NewEnglishStemmer().Analyze(s) }
